@@ -1812,7 +1812,25 @@ pub (crate) fn bid128_ext_fma(
             if (q3 + e3) > (p34 + EXP_MAX_UNBIASED) && p34 <= delta - 1 {
                 // e3 > EXP_MAX_UNBIASED implies p34 <= delta-1 and e3 > EXP_MAX_UNBIASED is a necessary
                 // condition for (q3 + e3) > (p34 + EXP_MAX_UNBIASED)
-                if rnd_mode == RoundingMode::NearestEven {
+                // exception for rounding to nearest: if z is exactly 10^(emax+p34), the first power of ten
+                // above the largest finite number, and the other term has the opposite sign and is larger
+                // than half an ulp of that number, the sum rounds to the largest finite number
+                if (rnd_mode == RoundingMode::NearestEven || rnd_mode == RoundingMode::NearestAway)
+                && p_sign != z_sign
+                && q3 + e3 == p34 + EXP_MAX_UNBIASED + 1
+                && q4 + e4 == EXP_MAX_UNBIASED
+                && ((q3 <= 20 && C3.w[1] == 0 && C3.w[0] == BID_TEN2K64[(q3 - 1) as usize])
+                 || (q3 > 20 && C3.w[1] == BID_TEN2K128[(q3 - 21) as usize].w[1]
+                             && C3.w[0] == BID_TEN2K128[(q3 - 21) as usize].w[0]))
+                && ((q4 <= 19 && (C4.w[1] != 0 || C4.w[0] > BID_MIDPOINT64[(q4 - 1) as usize]))
+                 || (q4 > 19 && (C4.w[1] > BID_MIDPOINT128[(q4 - 20) as usize].w[1]
+                             || (C4.w[1] == BID_MIDPOINT128[(q4 - 20) as usize].w[1]
+                              && C4.w[0] > BID_MIDPOINT128[(q4 - 20) as usize].w[0])))) {
+                    res.w[1] = z_sign | 0x5fffed09bead87c0u64; // +/-MAXFP
+                    res.w[0] = 0x378d8e63ffffffffu64;
+                    *pfpsf  |= StatusFlags::BID_INEXACT_EXCEPTION;
+                    is_inexact_lt_midpoint = true;
+                } else if rnd_mode == RoundingMode::NearestEven {
                     res.w[1] = z_sign | 0x7800000000000000u64; // +/-inf
                     res.w[0] = 0x0000000000000000u64;
                     *pfpsf  |= StatusFlags::BID_INEXACT_EXCEPTION | StatusFlags::BID_OVERFLOW_EXCEPTION;
